@@ -100,6 +100,14 @@ func c02Pair(w *W) {
 	nsend := 1 + w.Choose(simrt.SShape, 3)
 	nmsg := 1 + w.Choose(simrt.SShape, 12)
 	extra := w.Choose(simrt.SShape, 3)
+	// dialOut: instead of others dialling A, A itself (which has its peer)
+	// also dials a second PAIR socket C: A's own protocol refuses that
+	// connection for as long as B is there, and must take it once B has gone
+	dialOut := w.Choose(simrt.SShape, 4) == 0
+	if dialOut {
+		extra = 0
+	}
+	w.SetShape("dialout", dialOut)
 	w.SetShape("kind", kind)
 	w.SetShape("tran", tran)
 	w.SetShape("wq", wq)
@@ -151,6 +159,25 @@ func c02Pair(w *W) {
 	accepted := map[string]bool{}
 	calls := c2Senders(w, a, kind, "A", nsend, nmsg, accepted)
 	calls = append(calls, c2Senders(w, b, kind, "B", 1, nmsg, accepted)...)
+	var c mangos.Socket
+	if dialOut {
+		c = w.Sock(kind)
+		extras = append(extras, c)
+		addr2 := w.Addr(tran)
+		if err := c.Listen(addr2); err != nil {
+			w.Failf("HARNESS/listen", "%v", err)
+			return
+		}
+		d, err := a.NewDialer(addr2, map[string]interface{}{mangos.OptionDialAsynch: true, mangos.OptionReconnectTime: 20 * time.Millisecond, mangos.OptionMaxReconnectTime: 20 * time.Millisecond})
+		if err == nil {
+			err = d.Dial()
+		}
+		if err != nil {
+			w.Failf("HARNESS/dial-out", "%v", err)
+			return
+		}
+		w.Fault("proto-refuse")
+	}
 	// others try to join meanwhile
 	for i := 0; i < extra; i++ {
 		e := w.Sock(kind)
@@ -219,6 +246,32 @@ func c02Pair(w *W) {
 			return
 		}
 		w.Probe("pair-second-peer-after-first-left")
+	}
+	if dialOut {
+		b.Close()
+		w.Sleep(500 * time.Millisecond)
+		w.Settle()
+		if attA == 0 {
+			w.Failf("C02/pair-not-readmitting", "A's first peer left 500ms ago; A's own dialer to the listening PAIR socket C redials every 20ms, yet A attached nothing")
+			return
+		}
+		rc := c2StartReceiver(w, "C", c, 300*time.Millisecond)
+		call := w.Do("A.Send(to C)", func() (interface{}, error) { return nil, SendBody(a, kind, []byte("A:to-C")) })
+		if !call.Wait(5*time.Second) || call.Err != nil {
+			w.Failf("C02/send-never-completes:"+qkey+":second-peer", "A is connected to its second peer C, Send returned=%v err=%v", call.Returned(), call.Err)
+			return
+		}
+		w.Sleep(time.Second)
+		w.Settle()
+		ok := false
+		for _, x := range rc.got {
+			ok = ok || x == "A:to-C"
+		}
+		if !ok {
+			w.Failf("C02/lost:"+qkey+":second-peer", "the message A sent to its second peer C never arrived (C got %v)", rc.got)
+			return
+		}
+		w.Probe("pair-dials-second-peer-after-first-left")
 	}
 }
 
